@@ -87,15 +87,16 @@ def space(tier):
     en2 = K.universe(K.en_atoms(), 2, '/\\|')
     ja2 = K.universe(K.ja_atoms(), 2, '/\\|')
     small = K.universe([K.P('S[dcl]'), K.P('NP'), K.P('S[X]'), K.P('NP[case=ga,mod=nm,fin=f]'), K.P('N'), K.P(',')], 4, '/\\|')
-    return en3, ja3, en2, ja2, small
+    odd = K.universe(K.odd_atoms() + [K.P('NP')], 2, '/\\|') + K.universe(K.odd_atoms()[:6], 3, '/\\')
+    return en3, ja3, en2, ja2, small, odd
 
 
 def shard_fn(sh):
     kind, tier, lo, hi = sh[:4]
     st = core.Stats()
-    en3, ja3, en2, ja2, small = space(tier)
+    en3, ja3, en2, ja2, small, odd = space(tier)
     if kind == 'values':
-        U = (en3 + ja3)[lo:hi]
+        U = (en3 + ja3 + odd)[lo:hi]
         for v in U:
             t = K.text(v)
             st.count('values')
@@ -121,7 +122,7 @@ def shard_fn(sh):
             st.observe(t)
     elif kind == 'deco':
         d = sh[4]
-        U = {'u2': en2 + ja2, 'u3': en3 + ja3, 'u4': small}[sh[5]][lo:hi]
+        U = {'u2': en2 + ja2, 'u3': en3 + ja3, 'u4': small, 'odd': odd}[sh[5]][lo:hi]
         for v in U:
             t = K.text(v)
             punct = any(l.base in (',', '.', ';', ':', 'LRB', 'RRB', 'conj', '*START*', '*END*') and K.feat_text(l.feature) for l in K.leaves(v))
@@ -165,8 +166,8 @@ def shipped(st):
 
 def check(tier, seed):
     t0 = time.time()
-    en3, ja3, en2, ja2, small = space(tier)
-    nv = len(en3) + len(ja3)
+    en3, ja3, en2, ja2, small, odd = space(tier)
+    nv = len(en3) + len(ja3) + len(odd)
     shards = [('values', tier, lo, min(nv, lo + 3000)) for lo in range(0, nv, 3000)]
     n2 = len(en2) + len(ja2)
     shards += [('deco', tier, lo, min(n2, lo + 100), 2 if tier == 'quick' else 3, 'u2') for lo in range(0, n2, 100)]
@@ -175,16 +176,17 @@ def check(tier, seed):
         # d = 1 on a size-ordered prefix of U(3): every size-3 shape over the first atoms
         n3 = n2 + 12000
     else:
-        n3 = nv
+        n3 = len(en3) + len(ja3)
     shards += [('deco', tier, lo, min(n3, lo + step3), 1 if tier == 'quick' else 2, 'u3') for lo in range(n2, n3, step3)]
     shards += [('deco', tier, lo, min(len(small), lo + 300), 1 if tier == 'quick' else 2, 'u4') for lo in range(0, len(small) if tier == 'thorough' else 3000, 300)]
+    shards += [('deco', tier, lo, min(len(odd), lo + 400), 1 if tier == 'quick' else 2, 'odd') for lo in range(0, len(odd), 400)]
     st = core.pmap(shard_fn, core.rotate(shards, seed))
     shipped(st)
     st.sample(dict(value='(S[dcl]\\NP)/NP', decorated=list(itertools.islice(decorations(K.P('(S[dcl]\\NP)/NP'), 1), 6)), must_reject=unbracketed(K.P('(S[dcl]\\NP)/NP'))))
     return core.finish(PROP, tier, seed, 'exploration', st, t0,
                        rule=(f'every value of U(3) over both feature systems and / \\ | ({nv} values): parse(str(v)) == v and str(v) == independent canonical text; every text with one required bracket pair '
                              'removed must be rejected; every decorated text (wrap any sub-term in () or <>, blank at any token boundary) with <= d decorations '
-                             '(d=2 on U(2), d=1 on a prefix of U(3) and U(4) over 6 atoms in quick; d=3/2/2 complete in thorough) must parse to v and print canonically; all 3469 distinct shipped category strings round-trip. '
+                             '(d=2 on U(2), d=1 on a prefix of U(3) and U(4) over 6 atoms in quick; d=3/2/2 complete in thorough) must parse to v and print canonically; all 3469 distinct shipped category strings round-trip; values over atoms with unusual names (PRP$, -LRB-, N-num, primes, non-ASCII, punctuation characters in names and feature values) likewise. '
                              'non-trivial = values with >= 2 atoms / decorated values'),
                        nontrivial=st.c['nontrivial'], evaluations=st.c['values'] + st.c['decorated_texts'] + st.c['ambiguous_texts'] + st.c['shipped_strings'],
                        exhaustive=True, assumptions=['independent printer mc/cats.py::text', 'well-formed text = canonical text plus balanced redundant brackets and blanks between tokens'])
